@@ -232,14 +232,21 @@ type World struct {
 	ss                  stageState
 	fp                  *fpState
 	raceBase            int
-	recBytes            int64 // bytes of request and hook bodies recorded so far (run-away growth guard)
-	RaceProp            string
-	lastSig             int
-	budget              bool
-	budgetAt            string
-	ResyncHint          time.Duration // largest parent resync period configured (quiet-window computation)
-	ExtraQuiet          time.Duration // scenario-declared extra delay sources (Retry-After, resyncAfterSeconds)
-	Proc                *Proc
+	// YieldPermille: chance that an inserted yield point (dst/simyield) hands the
+	// processor to the other runnable goroutines; set by the scenario before the run starts
+	YieldPermille  int
+	ymu            sync.Mutex
+	ycount, yields uint64
+	ysalt          uint64
+	c18seq         int   // C18: run-wide order of handler calls and completed operations (under mu)
+	recBytes       int64 // bytes of request and hook bodies recorded so far (run-away growth guard)
+	RaceProp       string
+	lastSig        int
+	budget         bool
+	budgetAt       string
+	ResyncHint     time.Duration // largest parent resync period configured (quiet-window computation)
+	ExtraQuiet     time.Duration // scenario-declared extra delay sources (Retry-After, resyncAfterSeconds)
+	Proc           *Proc
 }
 
 type workerState struct {
@@ -1430,4 +1437,26 @@ func (w *World) bumpStep() {
 	w.mu.Lock()
 	w.step++
 	w.mu.Unlock()
+}
+
+// yieldPoint is the hook of dst/simyield for this run. The decision is a function
+// of the run's salt and of how many yield points have been passed so far; since
+// everything else in a run is deterministic, so is that count.
+func (w *World) yieldPoint() {
+	w.ymu.Lock()
+	w.ycount++
+	x := mix64(w.ysalt ^ (w.ycount * 0x9e3779b97f4a7c15))
+	yield := int(x%1000) < w.YieldPermille
+	if yield {
+		w.yields++
+	}
+	w.ymu.Unlock()
+	if yield {
+		// one Gosched lets every goroutine that is runnable now run once; work that is
+		// handed from goroutine to goroutine (watch decoder -> reflector -> informer ->
+		// listener) needs several rounds to get anywhere, so the yield lasts 1..32 rounds
+		for i := 0; i < 1<<((x>>10)%6); i++ {
+			runtime.Gosched()
+		}
+	}
 }
